@@ -104,7 +104,10 @@ def c07Line (f : List String) : String :=
         | some a, some b => if a == b then "ok" else "FAIL:framed-differs-from-direct"
         | _, _ => "-"
       let nt := if (Spec.writes direct).isEmpty then "0" else "1"
-      s!"{id} {renderOut framed} spec={verdict sp} ispec={isp} dom=- nt={nt}"
+      -- the domain of `C07.framed_eq_direct`
+      let dom := !p.contains ' ' && !p.contains '\n' && !pd.isEmpty && pd.all (· == ' ') &&
+        !m.contains '\n' && m.head? != some ' '
+      s!"{id} {renderOut framed} spec={verdict sp} ispec={isp} dom={if dom then 1 else 0} nt={nt}"
     | _, _, _ => s!"{id} !badhex"
   | _ => "!badline"
 
